@@ -6,6 +6,7 @@ import (
 	"math/rand"
 	"runtime"
 	"sort"
+	"strings"
 	"sync"
 	"time"
 
@@ -97,6 +98,8 @@ func (e *C17) batch(ctx *core.Ctx, idx int) {
 	rs := kit.NewRS(s, eds, "foo-a", kit.Tpl("A"), kit.T0)
 	rs.UID = "uid-rs"
 	failNode := map[string]bool{}
+	nilScheme := op == "createPods" && r.Intn(3) == 0
+	genFail := 0
 	var nodes []*strategy.NodeItem
 	podByNode := map[*strategy.NodeItem]*corev1.Pod{}
 	var pods []*corev1.Pod
@@ -113,6 +116,13 @@ func (e *C17) batch(ctx *core.Ctx, idx int) {
 			setting.Status.Status = v1.ExtendedDaemonsetSettingStatusValid
 		case 2:
 			node.Annotations = map[string]string{fmt.Sprintf(v1.ExtendedDaemonSetRessourceNodeAnnotationKey, "ns", "foo", "main"): fmt.Sprintf(`{"requests":{"cpu":"%dm"}}`, 200+i)}
+		case 5:
+			if nilScheme {
+				// pod generation itself fails for this node (malformed override; reported when no scheme
+				// is given): one more error per node, on top of a failing Create
+				node.Annotations = map[string]string{fmt.Sprintf(v1.ExtendedDaemonSetRessourceNodeAnnotationKey, "ns", "foo", "main"): `{"requests": nope`}
+				genFail++
+			}
 		}
 		ni := strategy.NewNodeItem(node, setting)
 		nodes = append(nodes, ni)
@@ -150,7 +160,10 @@ func (e *C17) batch(ctx *core.Ctx, idx int) {
 	}
 	var errs []error
 	pan := ""
-	func() {
+	affMode := r.Intn(2) == 0
+	done := make(chan struct{})
+	go func() {
+		defer close(done)
 		defer func() {
 			if x := recover(); x != nil {
 				pan = fmt.Sprint(x)
@@ -158,7 +171,11 @@ func (e *C17) batch(ctx *core.Ctx, idx int) {
 		}()
 		switch op {
 		case "createPods":
-			errs = ersctl.VerifCreatePods(logr.Discard(), c, s.Scheme, r.Intn(2) == 0, rs, nodes)
+			sch := s.Scheme
+			if nilScheme {
+				sch = nil
+			}
+			errs = ersctl.VerifCreatePods(logr.Discard(), c, sch, affMode, rs, nodes)
 		case "deletePods":
 			errs = ersctl.VerifDeletePods(logr.Discard(), c, podByNode, nodes)
 		case "deletePodSlice":
@@ -168,7 +185,20 @@ func (e *C17) batch(ctx *core.Ctx, idx int) {
 	ctx.Count("C17.batches")
 	ctx.Count("evaluations")
 	attrs := map[string]string{"op": op, "plan": plan.name}
-	desc := map[string]any{"op": op, "batch": n, "plan": plan.name, "injected": len(injected), "returned": len(errs)}
+	desc := map[string]any{"op": op, "batch": n, "plan": plan.name, "generation-failures": genFail}
+	select {
+	case <-done:
+	case <-time.After(90 * time.Second):
+		// a batch of at most 64 in-memory operations that has not returned after 90 s of wall clock is
+		// blocked for good (the parallel helpers have no other way of waiting): its goroutines are left behind
+		attrs["kind"] = "hang"
+		ctx.Violation("C17", "C17.no-hang", attrs, desc)
+		return
+	}
+	desc["injected"], desc["returned"] = len(injected), len(errs)
+	if genFail > 0 {
+		ctx.Count("C17.batches-with-generation-failures")
+	}
 	if pan != "" {
 		attrs["panic"] = pan
 		ctx.Violation("C17", "C17.no-panic", attrs, desc)
@@ -200,10 +230,22 @@ func (e *C17) batch(ctx *core.Ctx, idx int) {
 			dup++
 		}
 	}
-	for id := range got {
+	others := 0
+	for id, k := range got {
 		if !injected[id] {
+			if strings.HasPrefix(id, "other:") {
+				others += k
+				continue
+			}
 			alien++
 		}
+	}
+	// errors of pod generation (not injected at the client seam): exactly one per node whose
+	// generation fails
+	if others < genFail {
+		lost += genFail - others
+	} else if others > genFail {
+		alien += others - genFail
 	}
 	if lost+dup+alien > 0 {
 		desc["lost"], desc["duplicated"], desc["alien"] = lost, dup, alien
